@@ -20,7 +20,7 @@ pub static SPEC: PropSpec = PropSpec {
     case_cpu_s: 120,
     shards: 0,
     run,
-    floors: &[("instantiations", 1_500, 40_000), ("programs_agree", 60, 2_500), ("mono_fns_checked", 2_000, 80_000)],
+    floors: &[("instantiations", 1_500, 40_000), ("programs_agree", 60, 2_500), ("mono_fns_checked", 2_000, 80_000), ("template_programs_agree", 18, 18)],
     finish: None,
 };
 
@@ -564,6 +564,49 @@ fn run(ctx: &mut Ctx) {
                 _ => {}
             }
             mono_monitor(c, &label, &src, &BTreeMap::new());
+        });
+    }
+    // `Self` nested in type constructors of trait method results, called through bounds at two receiver types
+    for (i, (name, src, expected)) in crate::props::c03::self_position_programs().into_iter().enumerate() {
+        if !ctx.mine(80_000 + i as u64) {
+            continue;
+        }
+        let label = format!("self-position/{}", name);
+        ctx.case(&label.clone(), |c| {
+            if let Some((out, term, stderr)) = crate::exec::run_source(c, "C07", &label, &src, 2_000_000) {
+                if out == expected && matches!(term, crate::goexec::Term::Ok) {
+                    c.count("template_programs_agree", 1);
+                    c.nontrivial(hash_str(&src));
+                } else {
+                    c.violation(format!("C07:bound-call-result-differs:self-position:{}", name), format!("{} prints {:?} ({:?} {}), expected {:?}", label, out, term, util::truncate(&stderr, 80), expected), json!({"label": label, "source": src, "stdout": out}));
+                }
+            }
+        });
+    }
+    // a generic type with a generic inherent block and an instance-specific block that reuses a method name, in both
+    // declaration orders, called at three instantiations (dot form): every instantiation gets its own instance
+    for (i, generic_first) in [true, false].into_iter().enumerate() {
+        if !ctx.mine(81_000 + i as u64) {
+            continue;
+        }
+        let g = "impl[A, B] Pair[A, B] {\n    fn describe(self: Pair[A, B]) -> int32 { 1 }\n    fn only_generic(self: Pair[A, B]) -> int32 { 10 }\n}\n";
+        let k = "impl Pair[int32, int32] {\n    fn describe(self: Pair[int32, int32]) -> int32 { self.a + self.b }\n    fn only_concrete(self: Pair[int32, int32]) -> int32 { self.a * self.b }\n}\n";
+        let src = format!(
+            "struct Pair[A, B] {{ a: A, b: B }}\n{}{}fn main() -> unit {{\n    let p: Pair[int32, bool] = Pair {{ a: 1, b: true }};\n    let q: Pair[string, string] = Pair {{ a: \"x\", b: \"y\" }};\n    let r: Pair[int32, int32] = Pair {{ a: 20, b: 22 }};\n    let _ = string_println(int32_to_string(p.describe()) + \" \" + int32_to_string(q.describe()) + \" \" + int32_to_string(r.describe()));\n    let _ = string_println(int32_to_string(p.only_generic()) + \" \" + int32_to_string(q.only_generic()) + \" \" + int32_to_string(r.only_generic()) + \" \" + int32_to_string(r.only_concrete()));\n    ()\n}}\n",
+            if generic_first { g } else { k },
+            if generic_first { k } else { g }
+        );
+        let expected = "1 1 42\n10 10 10 440\n";
+        let label = format!("inherent-blocks/{}", if generic_first { "generic-then-concrete" } else { "concrete-then-generic" });
+        ctx.case(&label.clone(), |c| {
+            if let Some((out, term, stderr)) = crate::exec::run_source(c, "C07", &label, &src, 2_000_000) {
+                if out == expected && matches!(term, crate::goexec::Term::Ok) {
+                    c.count("template_programs_agree", 1);
+                    c.nontrivial(hash_str(&src));
+                } else {
+                    c.violation(format!("C07:instance-differs:{}", label), format!("{} prints {:?} ({:?} {}), expected {:?}", label, out, term, util::truncate(&stderr, 80), expected), json!({"label": label, "source": src, "stdout": out}));
+                }
+            }
         });
     }
     capi::cleanup_scratch();
